@@ -564,6 +564,17 @@ def c19_generate(seed, tier):
     if family in ("same_object", "same_spec") and cfgr.random() < 0.4:
         base = configs.family_spec(cfgr, cfgr.choice(
             ["deny_heavy", "pivot_traffic", "many_services"]))
+    if family == "same_object" and cfgr.random() < 0.5:
+        # a chain of subnets with open firewalls: pivots deep in the network
+        # are reached within a few productive steps
+        from . import docgen
+        d = docgen.gen_doc(cfgr, shape="chain", max_subnets=4,
+                           open_firewall=True, step_limit=None,
+                           deny_rate=0.0)
+        for sec in ("exploits", "privilege_escalation"):
+            for e in (d.get(sec) or {}).values():
+                e["prob"] = 1.0
+        base = {"kind": "yaml", "text": docgen.emit(d)}
     for k in range(n_env):
         if family == "same_object":
             specs.append(base)
@@ -644,7 +655,8 @@ def c19_generate(seed, tier):
     same_layout = family in ("same_object", "same_spec", "same_params",
                              "bench_seeded_unseeded", "same_layout_rewired",
                              "near_equal_numbers")
-    n_ops = rng.choice([10, 20, 30, 40]) * (2 if tier == "thorough" else 1)
+    n_ops = rng.choice([10, 20, 30, 40, 60]) * \
+        (2 if tier == "thorough" else 1)
     # scratch worlds to generate model-guided ops per environment
     gens = {}
     for k in range(n_env):
@@ -659,16 +671,21 @@ def c19_generate(seed, tier):
                 "modes": gens[0][1], "share": share[0],
                 "shared_generator": shared_gen})
     constructed.append(0)
-    for _ in range(n_ops):
+    # a late joiner: the last environment is only built when most of the
+    # schedule is over (the others have made progress by then)
+    late = n_ops * 6 // 10 if core.h64(f"{seed}|late") % 2 == 0 else 0
+    for op_no in range(n_ops):
         r = rng.random()
-        if pending and r < 0.25:
+        held_back = len(pending) == 1 and op_no < late
+        waiting = bool(pending) and not held_back
+        if pending and r < 0.25 and not held_back:
             k = pending.pop(0)
             ops.append({"op": "construct", "env": k, "spec": specs[k],
                         "modes": gens[k][1], "share": share[k],
                         "shared_generator": shared_gen})
             constructed.append(k)
             continue
-        if r < 0.07 and r >= 0.05 and not pending and not forked:
+        if r < 0.07 and r >= 0.05 and not waiting and not forked:
             # an environment is copied mid-episode (copy.deepcopy / pickle
             # round trip); original and copy both go on
             k = rng.choice(constructed)
@@ -682,17 +699,17 @@ def c19_generate(seed, tier):
                 ops.append({"op": "step", "env": rng.choice([k, j]),
                             "_fill": True})
             continue
-        if r < 0.09 and r >= 0.07 and not pending:
+        if r < 0.09 and r >= 0.07 and not waiting:
             ops.append({"op": "bad_construct", "spec": bad_spec(rng),
                         "modes": gens[0][1]})
             continue
-        if r < 0.05 and not pending and len(constructed) >= 2:
+        if r < 0.05 and not waiting and len(constructed) >= 2:
             # an environment is dropped (its objects die); its id may be
             # constructed again later
             k = rng.choice(constructed)
             ops.append({"op": "drop", "env": k})
             continue
-        if r < 0.30 and not pending and rng.random() < 0.3:
+        if r < 0.30 and not waiting and rng.random() < 0.3:
             # re-construct an environment id (a new object replaces the old
             # one, which dies) - from its own spec or from another member's
             k = rng.choice(constructed)
@@ -763,6 +780,8 @@ def c19_fill(ops, seed, tier):
     wl = core.stream(seed, "workload")
     fl = core.stream(seed, "faults")
     sw = envsim.Swarm(core.stream(seed, "swarm"), [])
+    # attack progress is what makes interference visible
+    sw.p_productive = max(sw.p_productive, 0.7)
     w = World(seed, tier)
     try:
         envs = sorted({op["env"] for op in ops if op.get("env") is not None})
